@@ -1040,4 +1040,181 @@ Proof.
     unfold evstep, mark_cached. destruct (get_bundler s run); simp_st; rewrite ?Epc; auto.
 Qed.
 
+
+(* pausing without a checkpoint, the task cancelled (or already in its final sleep): the next step arms FailedPause *)
+Definition Z3 (s : st) : Prop :=
+  state s = Pausing /\ cache s = None /\
+  ((must_cancel s = true /\ (pc s = PcSleep0 \/ exists k, pc s = PcCmd k)) \/ exists r, pc s = PcFinalSleep r).
+Definition ZZ (s : st) : Prop := ZT s \/ Z3 s.
+
+Lemma allowed_pausing_suspending : allowed Pausing Suspending = false. Proof. vm_compute. reflexivity. Qed.
+Lemma allowed_pausing_pausing : allowed Pausing Pausing = false. Proof. vm_compute. reflexivity. Qed.
+
+Lemma ZZ_other (s : st) e s' o :
+  other_ev e = true -> ZZ s -> step presume plan_of dev s e = (s', o) -> ZZ s' /\ Forall np o.
+Proof.
+  intros He HZ H. destruct (step_other _ _ _ _ He H) as [(E1 & E2 & E3 & E4) N]. split; [|exact N].
+  destruct HZ as [[Ht|Hd]|(Z1 & Z2 & Z3')].
+  - left; left. destruct E4 as [E4|[E4 E5]]; [rewrite E4; exact Ht|].
+    exfalso. destruct (term_no_move _ _ Ht E4) as [K|K]; rewrite K in E5; destruct E5 as [X|[X|[X|[X|X]]]]; discriminate X.
+  - left; right. unfold dead in *. rewrite E1. exact Hd.
+  - destruct E4 as [E4|[E4 E5]].
+    + right. unfold Z3. rewrite E1, E2, E4. repeat split; auto. destruct Z3' as [[M Hp]|Hp]; [left; split; auto | right; exact Hp].
+    + rewrite Z1 in E4. destruct E5 as [X|[X|[X|[X|X]]]]; rewrite X in E4.
+      * rewrite allowed_pausing_pausing in E4. discriminate E4.
+      * left; left. rewrite X. reflexivity.
+      * left; left. rewrite X. reflexivity.
+      * left; left. rewrite X. reflexivity.
+      * rewrite allowed_pausing_suspending in E4. discriminate E4.
+Qed.
+
+Lemma Z3_task (s : st) s' o : Z3 s -> task_step presume plan_of dev s = (s', o) -> ZT s' /\ Forall np o.
+Proof.
+  intros (Z1 & Z2 & Z3') H. rewrite RE_Inv.task_step_tentry in H.
+  destruct Z3' as [[Hm Hpc]|[r Hpc]].
+  2:{ unfold RE_Inv.tentry in H. cbv zeta in H. rewrite Hpc in H.
+      destruct (must_cancel s); (split; [right; right; eapply finalize_pc; exact H | eapply Forall_imp'; [exact finq_np | eapply finalize_finq; exact H]]). }
+  assert (Ht : exists p, RE_Inv.tentry P presume D dev s = inl (set_must_cancel s false, CCancelled p, [])).
+  { unfold RE_Inv.tentry. cbv zeta. rewrite Hm. destruct Hpc as [->|[k ->]]; eexists; reflexivity. }
+  destruct Ht as [p Ht]. rewrite Ht in H. clear Ht.
+  refine (RE_Small.drive_inv P presume plan_of D dev
+            (fun s c os => Forall np os /\ (term_state (state s) = true \/
+                             (state s = Pausing /\ cache s = None /\ match c with CCancelled _ | CContinue _ _ | CTop => True | _ => False end)))
+            (fun s' o => ZT s' /\ Forall np o) _ _ _ _ _ _ _ _ _ _ H).
+  - intros s0 c0 os0 s1 c1 o1 [N0 Q0] Hd. destruct Q0 as [T0|(A1 & A2 & A3)].
+    + pose proof (term_dstep s0 c0 _ T0 Hd) as [K1 K2]. split; [apply Forall_app; split; assumption | left; exact K1].
+    + destruct c0; try contradiction; cbn [RE_Small.dstep] in Hd.
+      * rewrite A1 in Hd. change (rstate_eqb Pausing Pausing) with true in Hd. unfold resumable in Hd. rewrite A2 in Hd. cbn [orb andb negb] in Hd.
+        unfold set_state in Hd. simp_st. rewrite A1, allowed_pausing_aborting' in Hd. inv Hd.
+        split; [apply Forall_app; split; [exact N0 | repeat constructor] | left; reflexivity].
+      * inv Hd. rewrite app_nil_r. split; [exact N0|]. right. destruct popped; simp_st; auto.
+      * rewrite A1 in Hd. inv Hd. rewrite app_nil_r. split; [exact N0|]. right. simp_st. auto.
+  - intros s0 c0 os0 s1 o1 [N0 Q0] Hd. destruct Q0 as [T0|(A1 & A2 & A3)].
+    + pose proof (term_dstep s0 c0 _ T0 Hd) as [K1 K2]. split; [|apply Forall_app; split; assumption].
+      destruct K1 as [K1|K1]; [left; exact K1 | right; right; exact K1].
+    + exfalso. destruct c0; try contradiction; cbn [RE_Small.dstep] in Hd; try discriminate Hd.
+      * rewrite A1 in Hd. change (rstate_eqb Pausing Pausing) with true in Hd. unfold resumable in Hd. rewrite A2 in Hd. cbn [orb andb negb] in Hd.
+        destruct (set_state _ Aborting) as [[? ?]|]; discriminate Hd.
+      * rewrite A1 in Hd. discriminate Hd.
+  - intros s0 c0 os0 [N0 _]. split; [right; left; reflexivity | apply Forall_app; split; [exact N0 | repeat constructor]].
+  - split; [constructor|]. right. simp_st. auto.
+Qed.
+
+Definition ok_ev (e : event) : bool := match e with EvMain (ACall _) | EvMain AResume => false | _ => true end.
+
+Lemma ZZ_run evs : forall (s : st),
+  forallb ok_ev evs = true -> ZZ s ->
+  ZZ (fst (run presume plan_of dev s evs)) /\ Forall np (snd (run presume plan_of dev s evs)).
+Proof.
+  induction evs as [|e evs IH]; intros s Hc HZ; cbn [run forallb fst snd] in *; [split; [exact HZ | constructor]|].
+  apply andb_true_iff in Hc. destruct Hc as [Hc1 Hc2].
+  destruct (step presume plan_of dev s e) as [s1 o1] eqn:Es.
+  assert (K : ZZ s1 /\ Forall np o1).
+  { destruct e as [a|a| | |defer|rs| | |sid pre post|sid|sid ok| |].
+    4:{ cbn [step] in Es. destruct HZ as [HZ|HZ].
+        - destruct (ZT_task _ _ _ HZ Es) as [A B]. split; [left; exact A | exact B].
+        - destruct (Z3_task _ _ _ HZ Es) as [A B]. split; [left; exact A | exact B]. }
+    all: (eapply ZZ_other; [|exact HZ|exact Es]); first [reflexivity | destruct a; first [reflexivity | discriminate Hc1]]. }
+  destruct K as [K1 K2]. specialize (IH s1 Hc2 K1). destruct (run presume plan_of dev s1 evs) as [s2 o2]. cbn [fst snd] in *.
+  destruct IH as [I1 I2]. split; [exact I1 | apply Forall_app; split; assumption].
+Qed.
+
+
+Lemma pause_request_any (s : st) s1 e o :
+  state s = Running -> bintr_ok (bundlers s) = true -> request_pause s false = (s1, e, o) ->
+  state s1 = Pausing /\ cache s1 = cache s /\ pc s1 = pc s /\ interrupted s1 = true /\
+  must_cancel s1 = (match pc s with PcNone | PcDone _ => must_cancel s | _ => true end) /\ Forall np o.
+Proof.
+  intros Hs Hb. unfold request_pause. rewrite Hs, allowed_running_pausing. cbn [negb]. cbv zeta.
+  match goal with |- context [set_state ?x Pausing] => set (sx := x) end.
+  assert (Hx : state sx = Running /\ bundlers sx = bundlers s /\ cache sx = cache s /\ pc sx = pc s /\ interrupted sx = true /\
+               must_cancel sx = must_cancel s).
+  { subst sx. cbn [pc interrupt set_ghost set_interrupted set_deferred upd]. destruct (pc s) eqn:E; cbn; rewrite ?E, ?Hs; repeat split; auto. }
+  clearbody sx. destruct Hx as (X1 & X2 & X3 & X4 & X5 & X6).
+  unfold set_state. rewrite X1, allowed_running_pausing. unfold record_interruptions. cbn [bundlers set_state_raw upd]. rewrite X2.
+  destruct (record_intr_list_ok _ Hb) as (bs & o0 & E & _ & _). rewrite E. pose proof (record_intr_list_dq _ _ _ _ E) as Q0.
+  intros H; inv H. unfold cancel_task. cbn [pc set_bundlers upd2 set_state_raw upd]. rewrite X4.
+  assert (Q : Forall np ([OState Running Pausing] ++ o0)) by (fa; try exact I; eapply Forall_imp'; [exact dq_np | exact Q0]).
+  destruct (pc s); cbn; rewrite ?X3, ?X5, ?X6; repeat split; auto.
+Qed.
+
+Lemma suspend_request_any (s : st) sid pre post s' o :
+  state s = Running -> cache s = None -> step presume plan_of dev s (EvReqSuspend sid pre post) = (s', o) ->
+  state s' = Aborting /\ interrupted s' = true /\ Forall np o.
+Proof.
+  intros Hs Hc. cbn [step]. unfold resumable. cbn [cache set_futs upd2]. rewrite Hc. cbn [negb].
+  unfold set_state. cbn [state set_exc_slot interrupt set_ghost set_interrupted set_futs upd upd2]. rewrite Hs.
+  rewrite allowed_running_aborting'. cbn [rstate_eqb sname String.eqb Ascii.eqb Bool.eqb].
+  unfold cancel_task. cbn [pc set_state_raw set_exc_slot interrupt set_ghost set_interrupted set_futs upd upd2].
+  destruct (pc s) eqn:Hp; cbn [state set_must_cancel set_state_raw upd]; rewrite allowed_aborting_suspending';
+    unfold req_result; intros H; inv H; cbn; destruct (mreq s); cbn; repeat split; auto; repeat constructor.
+Qed.
+
+(* THE SECOND THEOREM: whatever follows the failed request *)
+Theorem failed_pause_any_requests d paus stag rec evs1 req evs2 :
+  let s0 := init d paus stag rec in
+  let s1 := fst (run presume plan_of dev s0 evs1) in
+  let o1 := snd (run presume plan_of dev s0 evs1) in
+  let s3 := fst (run presume plan_of dev s1 (req :: evs2)) in
+  let o := snd (run presume plan_of dev s1 (req :: evs2)) in
+  (req = EvReqPause false \/ exists sid pre post, req = EvReqSuspend sid pre post) ->
+  state s1 = Running -> cache s1 = None ->
+  forallb ok_ev evs2 = true ->
+  no_bad (o1 ++ o) = true ->
+  Forall np o /\
+  (forall r, pc s3 = PcDone r ->
+     state s3 = Idle /\ bundlers s3 = [] /\ interrupted s3 = true /\
+     (forall u, In (DStart u) (RE_DocsCor.docs_of (o1 ++ o)) ->
+                exists xs rs n, In (DStop u xs rs n) (RE_DocsCor.docs_of (o1 ++ o)))).
+Proof.
+  intros s0 s1 o1 s3 o Hreq Hs Hc Hcont Hnb. apply no_bad_nb in Hnb.
+  apply nb_app in Hnb. destruct Hnb as [Hnb1 Hnb].
+  pose proof (RE_Inv.reach_Inv P presume plan_of D dev d paus stag rec evs1 (no_bad1 _ Hnb1)) as HI.
+  fold s0 in HI. fold s1 in HI.
+  pose proof (reachable_bintr_ok P presume plan_of D dev d paus stag rec evs1) as Hbo. fold s0 in Hbo. fold s1 in Hbo.
+  subst s3 o. cbn [run] in *.
+  destruct (step presume plan_of dev s1 req) as [s2 oq] eqn:Eq.
+  destruct (run presume plan_of dev s2 evs2) as [s3 o2] eqn:Er. cbn [fst snd] in *.
+  (* after the request *)
+  assert (K : ZZ s2 /\ interrupted s2 = true /\ Forall np oq).
+  { destruct Hreq as [->|(sid & pre & post & ->)].
+    - cbn [step] in Eq. destruct (request_pause s1 false) as [[sx ex] ox] eqn:E1.
+      destruct (pause_request_any _ _ _ _ Hs Hbo E1) as (A1 & A2 & A3 & A4 & A5 & A6).
+      unfold req_result in Eq. inv Eq.
+      assert (F : forall x : st, state x = state sx -> cache x = cache sx -> pc x = pc sx -> must_cancel x = must_cancel sx ->
+                                 interrupted x = interrupted sx -> ZZ x /\ interrupted x = true).
+      { intros x B1 B2 B3 B4 B5. split; [|congruence].
+        destruct HI as (I1 & _). rewrite Hs in I1.
+        destruct (pc s1) as [| | | | |k|r|r] eqn:Epc; try discriminate I1.
+        - right. unfold Z3. rewrite B1, B2, B3, B4, A1, A2, A3, A5, Hc. split; [reflexivity|]. split; [reflexivity|]. left. split; [reflexivity | left; reflexivity].
+        - right. unfold Z3. rewrite B1, B2, B3, B4, A1, A2, A3, A5, Hc. split; [reflexivity|]. split; [reflexivity|]. left. split; [reflexivity | right; eexists; reflexivity].
+        - right. unfold Z3. rewrite B1, B2, B3, A1, A2, A3, Hc. split; [reflexivity|]. split; [reflexivity|]. right. eexists; reflexivity. }
+      destruct (mreq sx); (destruct (F _ eq_refl eq_refl eq_refl eq_refl eq_refl) as [F1 F2]; split; [exact F1|]; split; [exact F2|]);
+        (apply Forall_app; split; [exact A6 | repeat constructor]).
+    - destruct (suspend_request_any _ _ _ _ _ _ Hs Hc Eq) as (A1 & A2 & A3). split; [left; left; rewrite A1; reflexivity | auto]. }
+  destruct K as (K1 & K2 & K3).
+  pose proof (ZZ_run evs2 s2 Hcont K1) as Hz. rewrite Er in Hz. cbn [fst snd] in Hz. destruct Hz as [Z3' N3].
+  split; [apply Forall_app; split; assumption|].
+  intros r Hdone.
+  pose proof (RE_Small.run_app P presume plan_of D dev s0 evs1 (req :: evs2)) as Hw. cbv zeta in Hw.
+  destruct (run presume plan_of dev s0 evs1) as [s1' o1'] eqn:E1. subst s1 o1. cbn [fst snd] in *.
+  cbn [run] in Hw. rewrite Eq, Er in Hw.
+  assert (Hnbw : ~ In (OBad 1) (snd (run presume plan_of dev s0 (evs1 ++ req :: evs2)))).
+  { rewrite Hw. cbn [snd]. apply no_bad1. apply nb_app. split; assumption. }
+  pose proof (RE_Inv.done_is_idle P presume plan_of D dev d paus stag rec (evs1 ++ req :: evs2) r) as Hd.
+  fold s0 in Hd. cbv zeta in Hd. specialize (Hd Hnbw). rewrite Hw in Hd. cbn [fst] in Hd. destruct (Hd Hdone) as [Hidle Hbn].
+  split; [exact Hidle|]. split; [exact Hbn|]. split.
+  - (* the interruption mark is sticky *)
+    clear - Hcont K2 Er. revert s2 s3 o2 K2 Er. induction evs2 as [|e evs IH]; intros s2 s3 o2 K2 Er; cbn [run forallb] in *.
+    + inv Er. exact K2.
+    + apply andb_true_iff in Hcont. destruct Hcont as [Hc1 Hc2].
+      destruct (step presume plan_of dev s2 e) as [sa oa] eqn:Es.
+      destruct (run presume plan_of dev sa evs) as [sb ob] eqn:Eb. inv Er.
+      eapply (IH Hc2 sa); [|exact Eb]. eapply RE_Exit.interrupted_sticky; [|exact Es|exact K2].
+      destruct e as [a|a| | |defer|rs| | |sid pre post|sid|sid ok| |]; try exact I. destruct a; try exact I; discriminate Hc1.
+  - intros u Hu.
+    pose proof (RE_DocsInv.done_all_stopped P presume plan_of D dev d paus stag rec (evs1 ++ req :: evs2) r) as K.
+    fold s0 in K. cbv zeta in K. specialize (K Hnbw). rewrite Hw in K. cbn [fst snd] in K. exact (K Hdone u Hu).
+Qed.
+
 End C10.
